@@ -36,15 +36,24 @@ from .model import AnalysisError, walk_no_nested
 _GEN_CACHE = {}   # id(function node) -> (node, is generator)
 
 
-def _is_itertools(v, name, func):
+def _is_lib(v, module, name, func):
+    """the value of `module.name`, `import module as m; m.name` or `from module import name [as n]`"""
     if not isinstance(v, Sym):
         return False
-    if v.op == "modattr" and v.args == ("itertools", name):
-        return True
+    if v.op == "modattr" and len(v.args) == 2 and v.args[1] == name:
+        alias = v.args[0]
+        return alias == module or (func is not None and func.module.imports.get(alias, (None,))[0] == module)
     if v.op == "attr" and len(v.args) == 2 and v.args[1] == name and isinstance(v.args[0], Sym) \
-            and v.args[0].op in ("name", "module") and v.args[0].args[:1] == ("itertools",):
-        return True
-    return v.op == "name" and func is not None and func.module.imports.get(v.args[0]) == ("itertools", name)
+            and v.args[0].op in ("name", "module") and v.args[0].args:
+        alias = v.args[0].args[0]
+        if func is not None and alias in func.module.imports:
+            return func.module.imports[alias] == (module, None)
+        return alias == module
+    return v.op == "name" and func is not None and func.module.imports.get(v.args[0]) == (module, name)
+
+
+def _is_itertools(v, name, func):
+    return _is_lib(v, "itertools", name, func)
 
 
 def _is_chain(v, func):
@@ -856,6 +865,11 @@ class SymInterp(Interp):
             r = h(self, recv, name, args, kwargs, node, func)
             if r is not NotImplemented:
                 return r
+        if name in ("bisect_left", "bisect_right", "bisect", "insort", "insort_left", "insort_right") \
+                and _is_lib(Sym("attr", recv, name), "bisect", name, func):
+            return self._bisect(name, args, kwargs, node, func)
+        if name == "groupby" and _is_lib(Sym("attr", recv, name), "itertools", name, func):
+            return self._h_call(it, None, Sym("attr", recv, name), args, kwargs, node, func)
         if name == "from_iterable" and len(args) == 1 and _is_chain(recv, func):
             seq = self.concrete_iter(args[0])
             if seq is None:
@@ -989,6 +1003,24 @@ class SymInterp(Interp):
                     return self.call_function(f, args, kwargs, recv=recv)
         return NotImplemented
 
+    def _bisect(self, fname, args, kwargs, node, func):
+        """bisect_left/right over a concrete-length list of abstract numbers (the list is assumed sorted, as bisect does):
+        the insertion point is found by comparisons, undecided ones become order atoms"""
+        if kwargs or len(args) != 2 or not isinstance(args[0], list) or any(is_marker(x) for x in args[0]):
+            raise AnalysisError("%s: %s outside the symflow fragment (lo/hi/key or a symbolic list)" % (func.loc(node), fname))
+        a, x = args
+        left = fname in ("bisect_left", "insort_left")
+        i = 0
+        while i < len(a):
+            stop = self.order(ast.LtE(), x, a[i]) if left else self.order(ast.Lt(), x, a[i])
+            if stop:
+                break
+            i += 1
+        if fname.startswith("insort"):
+            a.insert(i, x)
+            return None
+        return i
+
     def _sorted(self, seq, keyf, reverse, node, func):
         """stable insertion sort; undecided key comparisons become order atoms (every resulting order is explored)"""
         if not isinstance(reverse, bool):
@@ -1064,6 +1096,9 @@ class SymInterp(Interp):
             return self.call_closure(callee, args, kwargs)
         if _is_chain(callee, func):
             return self._chain(args)
+        for bname in ("bisect_left", "bisect_right", "bisect", "insort", "insort_left", "insort_right"):
+            if _is_lib(callee, "bisect", bname, func):
+                return self._bisect(bname, args, kwargs, node, func)
         if _is_itertools(callee, "groupby", func) and args:
             seq = self.concrete_iter(args[0])
             keyf = (kwargs or {}).get("key", args[1] if len(args) > 1 else None)
